@@ -69,6 +69,27 @@ type unode struct {
 	P *unode            `config:"p"`
 }
 
+// dnode: a recursive type whose members are partly named by tags with several
+// elements (paths): such a tag stands for nested members, the references its
+// path leads through stay under evaluation while the setting found is
+// unpacked. Settings without a member are ignored.
+type dnode struct {
+	P   *dnode `config:"p"`
+	RP  *dnode `config:"r.p"` // r and q have no member of their own: only the
+	RQ  *dnode `config:"r.q"` // paths lead through them
+	QR  *dnode `config:"q.r"`
+	QPR *dnode `config:"q.p.r"`
+	XP  *dnode `config:"x.p"` // x y z: references on the top level
+	YQR *dnode `config:"y.q.r"`
+	L0  *dnode `config:"l.0"`
+	VK  *dnode `config:"v.k1"`
+	S   string `config:"s"`
+	RS  string `config:"r.s"`
+	XT  string `config:"x.t"`
+}
+
+var dnodeT = reflect.TypeOf(dnode{})
+
 var (
 	tnodeT  = reflect.TypeOf(tnode{})
 	unodeT  = reflect.TypeOf(unode{})
@@ -117,7 +138,9 @@ type tworld struct {
 	root    *tn
 	w       *model.World // flattened: every expression under its dotted path
 	res     map[string]string
-	acyclic bool // generated without any cycle (by construction)
+	acyclic bool         // generated without any cycle (by construction)
+	nodeT   reflect.Type // target type of the typed reads
+	grafted bool         // graftBackReference has added its members
 	// paths by role
 	objPos  []string // object-valued positions (literal or reference)
 	refPos  []string // object-valued positions holding a reference
@@ -383,7 +406,64 @@ func genTyped(r *rand.Rand) *tworld {
 		}
 		t.w.Ress = append(t.w.Ress, t.res)
 	}
+	t.graftBackReference()
 	return t
+}
+
+// graftBackReference adds, to a third of the worlds (chosen by their content,
+// no random draw: the stream of everything else stays what it was), a member
+// r to a literal object A that refers back to A or to the object holding A,
+// and a member p below A holding such a reference again. Only the target type
+// dnode looks at them - through its members tagged "r.p", "r.q", "q.r": a path
+// through a reference to an enclosing object, met again on every level.
+func (t *tworld) graftBackReference() {
+	var b strings.Builder
+	t.root.render(&b)
+	h := 0
+	for _, c := range []byte(b.String()) {
+		h = (h*31 + int(c)) & 0xffffff
+	}
+	if h%3 != 0 {
+		return
+	}
+	var cands []string
+	for _, p := range t.objPos {
+		if n := t.lookup(p); n != nil && n.kind == 'o' && n.kids["r"] == nil && n.kids["p"] == nil && !strings.ContainsAny(p, "0123456789") {
+			cands = append(cands, p)
+		}
+	}
+	if len(cands) == 0 {
+		return
+	}
+	sort.Strings(cands)
+	pa := cands[(h/3)%len(cands)]
+	a := t.lookup(pa)
+	target := pa
+	if i := strings.LastIndex(pa, "."); i > 0 && pa[i+1:] == "p" && (h/7)%2 == 0 {
+		if par := t.lookup(pa[:i]); par != nil && par.kind == 'o' && kindOfName(pa[:i][strings.LastIndex(pa[:i], ".")+1:]) == kObj {
+			target = pa[:i] // the object holding A: its member p is A
+		}
+	}
+	member := []string{"r", "q"}[(h/11)%2] // dnode: "r.p"/"r.q" resp. "q.r"/"q.p.r"
+	if a.kids[member] != nil {
+		return
+	}
+	inner := map[string]*tn{member: {kind: 'e', ex: model.Ref(pa)}, "s": {kind: 'e', ex: model.Lit("va")}}
+	via := "p"
+	if member == "q" {
+		via = "r" // dnode's "q.r"
+		if a.kids["r"] != nil {
+			return
+		}
+	}
+	a.kids[member] = &tn{kind: 'e', ex: model.Ref(target)}
+	if target == pa {
+		a.kids[via] = &tn{kind: 'o', kids: inner}
+		t.objPos = append(t.objPos, pa+"."+via)
+	}
+	t.grafted = true
+	t.w.Root = map[string]*model.Setting{}
+	t.flatten(t.root, "")
 }
 
 func (t *tworld) flatten(n *tn, path string) {
@@ -476,7 +556,14 @@ type tmodel struct {
 	reentry    bool
 	steps      int
 	tooBig     bool
+	ambiguous  bool // met a situation the statement does not pin down: the read is not judged
+	// the target type: plain member names (nil: every name has a member) and
+	// the tags with several elements
+	plain    map[string]bool
+	dotted   [][]string
+	noDotted bool // a read of one top-level member only
 	// monitors
+	dottedThroughRef    int // members with a dotted tag whose path led through a reference
 	maxHops             int
 	objViaChain2        int // objects reached through >= 2 references
 	cycleBelowChain2    int // unabsorbed re-entries met below an object reached through >= 2 references
@@ -487,7 +574,19 @@ type tmodel struct {
 const modelStepLimit = 1500
 
 func newTModel(t *tworld) *tmodel {
-	return &tmodel{t: t, ev: model.NewEvaluator(t.w), targets: map[string]bool{}}
+	m := &tmodel{t: t, ev: model.NewEvaluator(t.w), targets: map[string]bool{}}
+	if t.nodeT == dnodeT {
+		m.plain = map[string]bool{}
+		for i := 0; i < dnodeT.NumField(); i++ {
+			tag := dnodeT.Field(i).Tag.Get("config")
+			if segs := strings.Split(tag, "."); len(segs) > 1 {
+				m.dotted = append(m.dotted, segs)
+			} else {
+				m.plain[tag] = true
+			}
+		}
+	}
+	return m
 }
 
 func (m *tmodel) fail(cyclic bool, hops int) {
@@ -616,7 +715,12 @@ func (m *tmodel) cfgPos(n *tn, path string, st []string, hops int) *exp {
 // the references in st under evaluation.
 func (m *tmodel) typedObj(n *tn, path string, st []string, hops int) *exp {
 	out := &exp{kind: 'o', kids: map[string]*exp{}}
+	noDotted := m.noDotted // holds for the outermost object only
+	m.noDotted = false
 	for _, name := range sortedKids(n) {
+		if m.plain != nil && !m.plain[name] {
+			continue // no member of that name: ignored
+		}
 		if !m.step() {
 			return out
 		}
@@ -640,27 +744,100 @@ func (m *tmodel) typedObj(n *tn, path string, st []string, hops int) *exp {
 			}
 			out.kids[name] = e
 		default:
-			before := m.ev.T.ReEntry
-			m.ev.T.ReEntry = false
-			r := m.ev.EvalSetting(cp, st, false)
-			if m.ev.T.ReEntry {
-				m.reentry = true
-				if hops >= 2 && !r.Cyclic {
-					m.absorbedBelowChain2++
-				}
+			out.kids[name] = m.textPos(cp, st, hops)
+		}
+	}
+	if !noDotted {
+		for _, segs := range m.dotted {
+			if !m.step() {
+				return out
 			}
-			m.ev.T.ReEntry = m.ev.T.ReEntry || before
-			switch {
-			case r.IsErr:
-				m.fail(r.Cyclic, hops)
-			case r.Container:
-				m.fail(false, 0) // an object where text is needed
-			default:
-				out.kids[name] = &exp{kind: 't', s: r.S}
+			if e := m.dottedMember(n, path, st, hops, segs); e != nil {
+				out.kids[strings.Join(segs, ".")] = e
 			}
 		}
 	}
 	return out
+}
+
+// textPos evaluates a text member (nil: it fails, recorded).
+func (m *tmodel) textPos(cp string, st []string, hops int) *exp {
+	before := m.ev.T.ReEntry
+	m.ev.T.ReEntry = false
+	r := m.ev.EvalSetting(cp, st, false)
+	if m.ev.T.ReEntry {
+		m.reentry = true
+		if hops >= 2 && !r.Cyclic {
+			m.absorbedBelowChain2++
+		}
+	}
+	m.ev.T.ReEntry = m.ev.T.ReEntry || before
+	switch {
+	case r.IsErr:
+		m.fail(r.Cyclic, hops)
+	case r.Container:
+		m.fail(false, 0) // an object where text is needed
+	default:
+		return &exp{kind: 't', s: r.S}
+	}
+	return nil
+}
+
+// dottedMember: a member whose tag is a path. Every reference the path leads
+// through stays under evaluation for what is found at its end.
+func (m *tmodel) dottedMember(n *tn, path string, st []string, hops int, segs []string) *exp {
+	cur, curPath := n, path
+	through := false
+	for _, seg := range segs[:len(segs)-1] {
+		kid := childOf(cur, seg)
+		if kid == nil {
+			return nil // nothing there: the member stays as it is
+		}
+		switch kid.kind {
+		case 'o', 'l':
+			cur, curPath = kid, join(curPath, seg)
+		default:
+			if kid.kind != 'e' || !kid.ex.IsSingleRef() {
+				m.ambiguous = true // text on the path: error or missing is not pinned down
+				return nil
+			}
+			nErr, nCyc := m.nErr, m.nCyc
+			objPath, st2, h, ok := m.followChain(kid.ex.Name.Text, st, hops)
+			if !ok {
+				if m.nCyc == nCyc {
+					// the reference on the path fails for another reason than a
+					// cycle: whether that is an error or a missing setting is not
+					// this property's business
+					m.nErr = nErr
+					m.ambiguous = true
+				}
+				return nil
+			}
+			through = true
+			cur, curPath, st, hops = m.t.lookup(objPath), objPath, st2, h
+		}
+	}
+	last := segs[len(segs)-1]
+	member := childOf(cur, last)
+	if member == nil {
+		return nil
+	}
+	if through {
+		m.dottedThroughRef++
+	}
+	cp := join(curPath, last)
+	if k := kindOfName(last); k == kText {
+		if member.kind != 'e' {
+			m.ambiguous = true
+			return nil
+		}
+		return m.textPos(cp, st, hops)
+	}
+	if member.kind == 'l' {
+		m.ambiguous = true
+		return nil
+	}
+	return m.objPos(member, cp, st, hops, "member with a dotted tag")
 }
 
 func (m *tmodel) class() string {
@@ -950,6 +1127,14 @@ func runTyped(res *harness.R, r *rand.Rand, verbose, sample bool) {
 	if r.Intn(2) == 0 {
 		nodeT = unodeT
 	}
+	if len(desc)%4 == 0 || t.grafted {
+		nodeT = dnodeT // derived from the content: the random stream stays what it was
+	}
+	if t.grafted {
+		res.Ev("typed_worlds_with_grafted_back_reference_below_a_dotted_tag", 1)
+	}
+	t.nodeT = nodeT
+	res.SetAdd("typed_target_type", nodeT.Name())
 	var c *ucfg.Config
 	var err error
 	if p, pv, where := harness.Safe(func() { c, err = ucfg.NewFrom(t.root.toGo(), vx.BaseOpts...) }); p {
@@ -982,7 +1167,12 @@ func runTyped(res *harness.R, r *rand.Rand, verbose, sample bool) {
 		res.Key("typed " + desc)
 	}
 
-	g := &stepGuard{res: res, desc: desc}
+	// members tagged with paths: a class of its own
+	tp := ""
+	if nodeT == dnodeT {
+		tp = "dotted-tag:"
+	}
+	g := &stepGuard{res: res, desc: desc, sig: "typed-target:" + tp}
 	g.install()
 	defer ucfg.VerifSetHook(nil)
 
@@ -1001,6 +1191,11 @@ func runTyped(res *harness.R, r *rand.Rand, verbose, sample bool) {
 			res.Ev("typed_reads_skipped_model_too_big", 1)
 			return
 		}
+		if m.ambiguous {
+			res.Ev("typed_reads_not_pinned_down", 1)
+			return
+		}
+		res.Ev("typed_members_with_dotted_tag_through_a_reference", int64(m.dottedThroughRef))
 		class := m.class()
 		res.SetAdd("typed_class", class)
 		res.Ev("typed_reads_"+class, 1)
@@ -1034,7 +1229,7 @@ func runTyped(res *harness.R, r *rand.Rand, verbose, sample bool) {
 							sig = "cycle-reported-as-expected-object-error"
 						}
 					}
-					res.Violate("typed-target:"+sig, "%s into %s failed with %q, model: every failing position is an unabsorbed cyclic reference, expected a cyclic reference error; %s", what, nodeT.Name(), e, desc)
+					res.Violate(typedSig("typed-target:", tp, sig), "%s into %s failed with %q, model: every failing position is an unabsorbed cyclic reference, expected a cyclic reference error; %s", what, nodeT.Name(), e, desc)
 				}
 				return "", ""
 			case m.nErr > 0:
@@ -1065,7 +1260,7 @@ func runTyped(res *harness.R, r *rand.Rand, verbose, sample bool) {
 		}
 		dev, detail := check(m, wantCanon, p, e)
 		if dev != "" {
-			res.Violate("typed-target:"+dev, "%s into %s %s; %s", what, nodeT.Name(), detail, desc)
+			res.Violate(typedSig("typed-target:", tp, dev), "%s into %s %s; %s", what, nodeT.Name(), detail, desc)
 			return
 		}
 		res.SetAdd("typed_entry", strings.SplitN(what, "(", 2)[0])
@@ -1077,7 +1272,7 @@ func runTyped(res *harness.R, r *rand.Rand, verbose, sample bool) {
 				return
 			}
 			if dev, detail := check(m, wantCanon, p, e2); dev != "" {
-				res.Violate("typed-target-merge:"+dev, "%s into the %s it has just filled %s; %s", what, nodeT.Name(), detail, desc)
+				res.Violate(typedSig("typed-target-merge:", tp, dev), "%s into the %s it has just filled %s; %s", what, nodeT.Name(), detail, desc)
 				return
 			}
 			res.Ev("typed_reads_repeated_into_filled_target", 1)
@@ -1104,7 +1299,7 @@ func runTyped(res *harness.R, r *rand.Rand, verbose, sample bool) {
 					return
 				}
 				if dev, detail := check(m2, canonExp(want2), q, e3); dev != "" {
-					res.Violate("typed-target:"+dev, "Unpack of the *Config member obtained by %s (standing for %q) into %s %s; %s", what, ca.path, nodeT.Name(), detail, desc)
+					res.Violate(typedSig("typed-target:", tp, dev), "Unpack of the *Config member obtained by %s (standing for %q) into %s %s; %s", what, ca.path, nodeT.Name(), detail, desc)
 					return
 				}
 				res.Ev("typed_config_members_unpacked", 1)
@@ -1118,7 +1313,7 @@ func runTyped(res *harness.R, r *rand.Rand, verbose, sample bool) {
 			return
 		}
 		if dev, detail := check(m, wantCanon, pf, e4); dev != "" {
-			res.Violate("typed-target-merge:"+dev, "%s into a %s pre-filled with empty objects %s; %s", what, nodeT.Name(), detail, desc)
+			res.Violate(typedSig("typed-target-merge:", tp, dev), "%s into a %s pre-filled with empty objects %s; %s", what, nodeT.Name(), detail, desc)
 			return
 		}
 		res.Ev("typed_reads_into_prefilled_target", 1)
@@ -1132,7 +1327,11 @@ func runTyped(res *harness.R, r *rand.Rand, verbose, sample bool) {
 			return
 		}
 		k := k
+		if memberType(nodeT, k) == nil {
+			continue // no member of that name
+		}
 		m := newTModel(t)
+		m.noDotted = true
 		want := m.typedObj(&tn{kind: 'o', kids: map[string]*tn{k: t.root.kids[k]}}, "", nil, 0)
 		judge(fmt.Sprintf("Unpack of top-level setting(%q)", k), m, want,
 			func() reflect.Value { return reflect.New(nodeT) },
@@ -1193,8 +1392,12 @@ func runTyped(res *harness.R, r *rand.Rand, verbose, sample bool) {
 	// (4) termination of the remaining whole-config reads. They visit every
 	// object once per way it can be reached without re-entry, like the model of
 	// the whole-config read does: only configurations that model finds small
+	// (sized by the model of a target that has a member for every name: the
+	// generic reads look at all settings, whatever the typed target ignores)
+	t.nodeT = tnodeT
 	wm := newTModel(t)
 	wm.typedObj(t.root, "", nil, 0)
+	t.nodeT = nodeT
 	if ws := wm.steps + wm.ev.T.Steps; !wm.tooBig && ws <= 200 {
 		var gm map[string]interface{}
 		g.run("Unpack(map[string]interface{})", func() { c.Unpack(&gm, opts...) })
@@ -1206,6 +1409,16 @@ func runTyped(res *harness.R, r *rand.Rand, verbose, sample bool) {
 		res.Ev("typed_worlds_with_generic_whole_reads", 1)
 	}
 	res.SetAdd("typed_max_resolve_events_per_read_log2", fmt.Sprint(log2(g.max)))
+}
+
+// typedSig: the deviations of members tagged with paths form one class (the
+// kind of deviation is in the detail); non-termination keeps its own
+// signature (composed by the step guard).
+func typedSig(prefix, tp, dev string) string {
+	if tp != "" {
+		return "typed-target:" + tp + "differs-from-nested-members"
+	}
+	return prefix + dev
 }
 
 func fieldByTag(v reflect.Value, name string) reflect.Value {
